@@ -647,7 +647,9 @@ def check_property(prop, tier, only=None, verbose=False):
         log("PROOF-DEGRADED property=%s job=%s %s" % (prop, j.name, r["detail"][:300]))
     for j, r in attempted:
         log("ATTEMPTED-NOT-DECIDED property=%s job=%s status=%s (advisory obligation: listed in the evidence as not decided, does not count as discharged)" % (prop, j.name, r["status"]))
-    write_evidence(prop, tier, mod, jobs, results, violations, known_hits, undecided, time.time() - t0, attempted)
+    # a run restricted with --jobs is a partial run: its evidence goes next to the work directory, not into /verif/evidence
+    write_evidence(prop, tier, mod, jobs, results, violations, known_hits, undecided, time.time() - t0, attempted,
+                   outdir=(os.path.join(WORK, "evidence_partial") if only else EVIDENCE_DIR))
     if violations:
         return 1
     if undecided:
@@ -657,7 +659,9 @@ def check_property(prop, tier, only=None, verbose=False):
     return 0
 
 
-def write_evidence(prop, tier, mod, jobs, results, violations, known_hits, undecided, wall, attempted=()):
+def write_evidence(prop, tier, mod, jobs, results, violations, known_hits, undecided, wall, attempted=(), outdir=None):
+    outdir = outdir or EVIDENCE_DIR
+    os.makedirs(outdir, exist_ok=True)
     meta = getattr(mod, "META", {})
     obl = sum(r["obligations"] for r in results.values())
     dis = sum(r["discharged"] for r in results.values())
@@ -715,7 +719,7 @@ def write_evidence(prop, tier, mod, jobs, results, violations, known_hits, undec
         cov.update(mod.extra_coverage(results))
     ev = dict(property_id=prop, tier=tier, seed=int(os.environ.get("VERIF_SEED", "0") or 0), level=level, coverage=cov,
               assumptions=meta.get("assumptions", []) + COMMON_ASSUMPTIONS, wall_s=round(wall, 1), violations=len(violations))
-    with open(os.path.join(EVIDENCE_DIR, prop + ".json"), "w") as f:
+    with open(os.path.join(outdir, prop + ".json"), "w") as f:
         json.dump(ev, f, indent=1)
 
 
